@@ -556,8 +556,14 @@ class Scalar(Parametrized):
 
     def dagger(self):
         value = self.array[0]
-        return self if value.conjugate() == value\
-            else Scalar(value.conjugate())
+        if value.conjugate() == value:
+            return self
+        if type(self) is Sqrt:  # conj(sqrt(z)) need not be a principal root
+            return Scalar(value.conjugate())
+        if type(self) is not Scalar:  # MixedScalar takes data only
+            return type(self)(self.data.conjugate())
+        return Scalar(self.data.conjugate(),
+                      name=self._name, is_mixed=self.is_mixed)
 
 
 class MixedScalar(Scalar):
